@@ -12,6 +12,7 @@ Ends are the rounded ends `Ev.endOf e = round(ts + dur, 4)` the code compares.
 import AiuVerif.Lemmas.Overlap
 import AiuVerif.Lemmas.OverlapSort
 import AiuVerif.Lemmas.OverlapLanes
+import AiuVerif.Lemmas.OverlapRound
 
 namespace AiuVerif.C04
 open AiuVerif.Overlap
@@ -49,6 +50,36 @@ theorem laminar_tid (evs out : List Ev) (h : pipeline .tid evs = .ok out) : Lane
   · rename_i st' out' hd
     injection h with h; subst h
     exact laminar_stage _ _ _ _ _ _ hd
+
+/-- disjoint or nested on the *unrounded* ends `ts + dur`, up to 0.1 ns = 10⁻⁴ µs -/
+def LaminarRaw (a b : Ev) : Prop :=
+  a.ts + a.dur ≤ b.ts + 1/10000 ∨ b.ts + b.dur ≤ a.ts + 1/10000 ∨
+    (a.ts ≤ b.ts ∧ b.ts + b.dur ≤ a.ts + a.dur + 1/10000) ∨
+    (b.ts ≤ a.ts ∧ a.ts + a.dur ≤ b.ts + b.dur + 1/10000)
+
+/-- the rounding the tool applies costs at most 0.1 ns: laminar on rounded ends implies laminar
+on the exact ends up to 10⁻⁴ µs (`|round(x,4) − x| ≤ 5·10⁻⁵`, `rnd4_close`) -/
+theorem laminarRaw_of_laminar {a b : Ev} (h : Laminar a b) : LaminarRaw a b := by
+  have ha := rnd4_close (a.ts + a.dur)
+  have hb := rnd4_close (b.ts + b.dur)
+  unfold Laminar Ev.endOf at h
+  unfold LaminarRaw
+  grind
+
+/-- **Clause 1 with the tolerance of the statement (-O tid and -O drop).** Any two output slices
+with the same pid and tid are disjoint or nested on their true ends `ts + dur` up to 0.1 ns. -/
+theorem laminar_raw (mode : Mode) (evs out : List Ev) (h : pipeline mode evs = .ok out) :
+    out.Pairwise (fun a b => a.isX = true → b.isX = true → a.pid = b.pid → a.tid = b.tid →
+      LaminarRaw a b) := by
+  have hl : LanesLaminar out := by
+    unfold pipeline at h
+    simp only [] at h
+    split at h
+    · cases h
+    · rename_i st' out' hd
+      injection h with h; subst h
+      exact laminar_stage _ _ _ _ _ _ hd
+  exact List.Pairwise.imp (fun hab hxa hxb hp ht => laminarRaw_of_laminar (hab hxa hxb hp ht)) hl
 
 /-- **Clause 1 (-O drop).** The same for -O drop, and the output is a sub-list of the sorted
 input (events are only ever removed, never altered). -/
@@ -124,6 +155,45 @@ theorem lanes_not_merged (evs out : List Ev) (h : pipeline .tid evs = .ok out) :
   have h2 := owns_reach hnx (owns_self hmq) hq3
   rw [htid] at h1
   exact owns_unique h1 h2
+
+/-- **The hypothesis `= .ok out` is met by every well-formed input except for the lane budget.**
+For every input whose timestamps are non-negative (lane heads start at `0.0`), neither `assert` of
+`overlap_detection` can fire in the registered sub-pipeline: the sort stage leaves every lane
+start-sorted (`sortStage_laneSorted`), and a moved slice only ever lands on lanes of its own
+family, which no other lane uses (`famDisj_built`).  The only error results left are the
+`KeyError` at the end of a tid range (budget exceeded) and the model's fuel guard. -/
+theorem no_assert (mode : Mode) (evs : List Ev) (hnn : ∀ e ∈ evs, 0 ≤ e.ts) (e : Err)
+    (h : pipeline mode evs = .error e) : e = .keyError ∨ e = .recursion := by
+  unfold pipeline at h
+  simp only [] at h
+  split at h
+  · rename_i e' hd
+    injection h with h; subst h
+    refine detectAll_no_assert mode _ _ (sortStage evs) Lanes.init StateOK_init ?_
+      (sortStage_laneSorted evs) ?_ _ hd
+    · intro b hb _ t _
+      exact hnn b ((sortStage_perm evs).mem_iff.mp hb)
+    · cases mode with
+      | tid => exact famDisj_built _ _
+      | drop => exact famDisj_nil _
+  · cases h
+
+/-- **-O drop is total on well-formed input**: it always produces an output (to which
+`laminar_drop` and `drop_sublist` apply). -/
+theorem drop_total (evs : List Ev) (hnn : ∀ e ∈ evs, 0 ≤ e.ts) : ∃ out, pipeline .drop evs = .ok out := by
+  cases hp : pipeline .drop evs with
+  | ok out => exact ⟨out, rfl⟩
+  | error e =>
+    exfalso
+    have h1 := no_assert .drop evs hnn e hp
+    unfold pipeline at hp
+    simp only [] at hp
+    split at hp
+    · rename_i e' hd
+      injection hp with hp; subst hp
+      have h2 := detectAll_drop_err _ _ _ _ _ hd
+      rcases h1 with h1 | h1 <;> rcases h2 with h2 | h2 <;> rw [h1] at h2 <;> cases h2
+    · cases hp
 
 /-! ### non-vacuity: concrete runs that meet the hypotheses and exercise the branches -/
 
